@@ -77,6 +77,12 @@ class SyncEngine(BaseEngine):
                     raise
         finally:
             self._processing.release()
+
+        # Another thread may have put a trigger on the queue after the last emptiness test above
+        # and before the release; its own non-blocking acquire failed, so nobody would process
+        # that trigger until the next event arrives. Drain it now.
+        if self._external_queue:
+            self.processing_loop()
         return first_result if first_result is not self._sentinel else None
 
     def _trigger(self, trigger_data: TriggerData):
